@@ -9,6 +9,9 @@ pub struct AliasDef {
     pub toks: Vec<String>,
     pub bl: bool,
     pub g: bool,
+    /// how the value text is laid out (same tokens for the spec):
+    /// 0 single blanks; 1 leading blank; 2 double blanks; 3 tabs for blanks
+    pub sty: u8,
 }
 
 pub type Table = Vec<AliasDef>;
@@ -41,6 +44,7 @@ pub fn table_from_json(v: &Value) -> Table {
                 toks: strs(&d["toks"]),
                 bl: d["bl"].as_bool().unwrap_or(false),
                 g: d["g"].as_bool().unwrap_or(false),
+                sty: d["sty"].as_u64().unwrap_or(0) as u8,
             });
         }
     }
@@ -50,7 +54,11 @@ pub fn table_from_json(v: &Value) -> Table {
 pub fn table_json(t: &Table) -> Value {
     let mut m = serde_json::Map::new();
     for d in t {
-        m.insert(d.name.clone(), json!({"toks": d.toks, "bl": d.bl, "g": d.g}));
+        if d.sty == 0 {
+            m.insert(d.name.clone(), json!({"toks": d.toks, "bl": d.bl, "g": d.g}));
+        } else {
+            m.insert(d.name.clone(), json!({"toks": d.toks, "bl": d.bl, "g": d.g, "sty": d.sty}));
+        }
     }
     Value::Object(m)
 }
@@ -90,9 +98,17 @@ pub fn render_line(toks: &[String]) -> String {
 /// The text of an alias value: its tokens separated by blanks, plus a
 /// trailing blank if `bl`.
 pub fn render_value(d: &AliasDef) -> String {
-    let mut s = render_line(&d.toks);
+    let sep = match d.sty {
+        2 => "  ",
+        3 => "\t",
+        _ => " ",
+    };
+    let mut s = d.toks.iter().map(|t| render_tok(t)).collect::<Vec<_>>().join(sep);
+    if d.sty == 1 && !d.toks.is_empty() {
+        s.insert(0, ' ');
+    }
     if d.bl {
-        s.push(' ');
+        s.push_str(sep);
     }
     s
 }
@@ -148,7 +164,8 @@ impl Gen {
                 let toks: Vec<String> = (0..len).map(|_| self.value_tok()).collect();
                 let bl = self.rng.gen_range(0..100) < 45;
                 let g = global_ok && self.rng.gen_range(0..100) < 30;
-                t.push(AliasDef { name: n.to_string(), toks, bl, g });
+                let sty = [0, 0, 0, 0, 1, 2, 3][self.rng.gen_range(0..7)];
+                t.push(AliasDef { name: n.to_string(), toks, bl, g, sty });
             }
         }
         t
